@@ -178,3 +178,55 @@ Lemma unknown_name_no_report_lemma : forall parse_toml analyse_all f cwd a file 
   arg_toml a = Some file -> Run.toml_of parse_toml f cwd a = Some t -> has_unknown t ->
   exists code, Run.run parse_toml analyse_all f cwd a = (f, code) /\ code <> 0.
 Proof. exact unknown_name_no_report_lemma0. Qed.
+
+(* ------------------------------------------------------------------ examples used by props/C18.v *)
+(* a toy analysis that looks at the eligible file /w/a.sol only, a file system with a stale report
+   inside the analysed directory (cwd = analysed directory) *)
+Definition ex_analyse (f : fs) (cwd p : path) (o v q : list N) : res string :=
+  match f "/w/a.sol" with Some (FileN c) => Ok ("findings in a.sol: " ++ c) | _ => Panic "Unable to read file" end.
+Definition ex_fs (old : option string) : fs := fun q =>
+  if String.eqb q "/w" then Some DirN
+  else if String.eqb q "/w/a.sol" then Some (FileN "contract A {}")
+  else if String.eqb q "/w/solstat_report.md" then option_map FileN old
+  else None.
+Definition ex_args : Args := {| arg_path := Some "."; arg_toml := None |}.
+
+Lemma ex_analyse_ignores_ineligible_lemma : ignores_ineligible ex_analyse.
+Proof.
+  intros f1 f2 d name Hn [Hag _] cwd p o v q. unfold ex_analyse.
+  rewrite (Hag "/w/a.sol"); [reflexivity|].
+  intro H. (* "/w/a.sol" = d ++ "/" ++ name would make name = "a.sol" (eligible) or contain a '/' *)
+  assert (forall d0 n0, "/w/a.sol" = d0 ++ "/" ++ n0 -> Dir.eligible n0 = true) as K.
+  { clear. intros d0 n0 E.
+    destruct d0 as [|c0 d0]; cbn in E; [inversion E; subst; vm_compute; reflexivity|].
+    destruct d0 as [|c1 d0]; cbn in E; [inversion E|].
+    destruct d0 as [|c2 d0]; cbn in E; [inversion E; subst; vm_compute; reflexivity|].
+    destruct d0 as [|c3 d0]; cbn in E; [inversion E|].
+    destruct d0 as [|c4 d0]; cbn in E; [inversion E|].
+    destruct d0 as [|c5 d0]; cbn in E; [inversion E|].
+    destruct d0 as [|c6 d0]; cbn in E; [inversion E|].
+    destruct d0 as [|c7 d0]; cbn in E; [inversion E|].
+    destruct d0 as [|c8 d0]; cbn in E; inversion E. }
+  rewrite (K d name H) in Hn. discriminate.
+Qed.
+
+Lemma ex_stale_report_replaced_lemma :
+  agree_except (report_path "/w") (ex_fs None) (ex_fs (Some "OLD REPORT, much longer than the new one ................")) /\
+  snd (run (fun _ => None) ex_analyse (ex_fs (Some "OLD REPORT, much longer than the new one ................")) "/w" ex_args) = 0 /\
+  fst (run (fun _ => None) ex_analyse (ex_fs (Some "OLD REPORT, much longer than the new one ................")) "/w" ex_args)
+      "/w/solstat_report.md" = Some (FileN "findings in a.sol: contract A {}") /\
+  fst (run (fun _ => None) ex_analyse (ex_fs None) "/w" ex_args)
+      "/w/solstat_report.md" = Some (FileN "findings in a.sol: contract A {}").
+Proof.
+  split; [| vm_compute; auto].
+  split; [| split; vm_compute; reflexivity].
+  intros q Hq. unfold ex_fs.
+  destruct (String.eqb q "/w"); [reflexivity|].
+  destruct (String.eqb q "/w/a.sol"); [reflexivity|].
+  destruct (String.eqb q "/w/solstat_report.md") eqn:E; [|reflexivity].
+  apply String.eqb_eq in E. subst q. exfalso. apply Hq. vm_compute. reflexivity.
+Qed.
+
+Lemma ex_failed_run_lemma : run (fun _ => None) ex_analyse (ex_fs (Some "old")) "/w"
+                            {| arg_path := None; arg_toml := None |} = (ex_fs (Some "old"), 1).
+Proof. vm_compute. reflexivity. Qed.
